@@ -40,6 +40,20 @@ theorem notifyParentCertified_spec {e : Epoch} {st : SlotState} {h : Nat} {st' :
         rw [checkS2N_parents]
         exact lookup_map_certified st.parents h x
 
+/-- `notify_parent_certified` itself only emits safe-to-notar / repair events -/
+theorem notifyParentCertified_events {e : Epoch} {st : SlotState} {h : Nat} {st' : SlotState} {evs : List Event}
+    (hn : st.notifyParentCertified e h = some (st', evs)) : Event.panic ∉ evs := by
+  intro hev
+  unfold SlotState.notifyParentCertified at hn
+  split at hn
+  · cases hn
+  · dsimp only at hn
+    split at hn
+    · cases hn; cases hev
+    · cases hn
+      generalize (SlotState.checkS2N _ _ h).2 = res at hev
+      cases res <;> simp [s2nOut] at hev
+
 theorem notifyParentCertified_isSome {e : Epoch} {st : SlotState} {h : Nat} (hk : (st.parents.lookup h).isSome = true) :
     ∃ st' evs, st.notifyParentCertified e h = some (st', evs) := by
   unfold SlotState.notifyParentCertified
